@@ -1585,25 +1585,19 @@ chop_more:
 	for (const char *tmp = BP, *const ep = BP + BZ;
 	     (eol = memchr(tmp, '\n', ep - tmp)) != NULL &&
 		     ++eol < ep && (*eol == ' ' || *eol == '\t'); tmp = eol);
-	if (UNLIKELY((eol == NULL || eol >= BP + BZ) &&
-		     BZ >= sizeof(p->stash) - p->six)) {
-		/* we must have stopped mid-stream at the end of the buffer
-		 * however, our stash space is too small to hold the contents
-		 * we'll just fuck off and hope nobody will notice */
-		p->six = 0U;
-	} else if (UNLIKELY(eol == NULL || eol >= BP + BZ)) {
+	if (UNLIKELY(eol == NULL || eol >= BP + BZ)) {
 		/* copy what we've got to the stash for small buffers */
 		char *restrict sp = p->stash + p->six;
 		size_t sz = sizeof(p->stash) - p->six;
 
 		if (UNLIKELY((sz = esccpy(sp, sz, BP, BZ)) == ESCCPY_OVERLONG)) {
-			/* cannot happen, BZ is less than what's left */
-			sz = 0U;
-		}
-		p->six += sz;
-		/* it's all in the stash now */
-		BI = p->bsz;
-		if (eol != NULL) {
+			/* we must have stopped mid-stream at the end of the
+			 * buffer however, our stash space is too small to
+			 * hold the contents, same limit as for whole lines
+			 * we'll just fuck off and hope nobody will notice */
+			p->six = 0U;
+			p->stash[0U] = '\0';
+		} else if (p->six += sz, eol != NULL) {
 			/* means at least we've seen a \n up there
 			 * leave a mark in the stash buffer so the
 			 * pre-examination in the next iteration can
@@ -1611,6 +1605,8 @@ chop_more:
 			 * fact a complete line */
 			p->stash[p->six] = '\001';
 		}
+		/* it's all in the stash now */
+		BI = p->bsz;
 	} else {
 		const char *bp = BP;
 		const size_t llen = eol - bp;
